@@ -16,7 +16,7 @@ import (
 // Invariant registers the invariant of the loop statement that follows it.  f is
 // a func(...) bool; parameters, if any, are bound by name to the variables the
 // loop statement itself declares (for state := ...; the range index as idx).
-func Invariant(f any) {}
+func Invariant(f any, label string) {}
 
 // RangeInvariant registers the invariant of the range loop that follows it;
 // i is the number of completed iterations (the index of the next element).
